@@ -39,5 +39,26 @@ UNIT = Unit(
                            f"  forall|j: int| 0 <= j < param_types@.len() ==> (#[trigger] param_types@[j]).0 == f.params@[j].0 && param_types@[j].1 == hir_ty(f.params@[j].1),\n"
                            f"  forall|i: int| 0 <= i < {mt.group(1)} && (forall|j: int| i < j < {mt.group(1)} ==> (#[trigger] f.params@[j]).0 != f.params@[i].0) ==> local_env.bound((#[trigger] f.params@[i]).0) == Some(hir_ty(f.params@[i].1)),\n"
                            f" decreases param_types.len() - {mt.group(1)},")(re.search(r"while\s+(__fk\d+)", header)))),
+        Fn(file=TL, name="typecheck_impl_block", rename="method_body_checked", attrs="#[verifier::loop_isolation(false)]",
+           cut_from=re.compile(r"let param_types: Vec<\(hir::LocalId, tast::Ty\)> = f"), cut_before="@block-end", cut_tail="",
+           sig="fn method_body_checked(genv: &PackageTypeEnv, typer: &mut Typer, diagnostics: &mut Diagnostics, f: &HirFn, for_ty: Ty, all_generics: Vec<HirIdent>, all_generics_tast: Vec<TastIdent>, mut local_env: LocalTypeEnv)",
+           pre_rewrites=[(re.compile(r"\|\((\w+), (\w+)\)\| \{"), r"|__nt| { let \1 = &__nt.0; let \2 = &__nt.1;", "*"),
+                         ("tast::Ty::from_hir(", "ty_from_hir(", "*"), ("(*name, ty)", "(local_copy(name), ty)", "*"),
+                         (re.compile(r"let tparams: Vec<tast::TastIdent> = all_generics\s*\.iter\(\)\s*\.map\(\|g\| tast::TastIdent\(g\.to_ident_name\(\)\)\)\s*\.collect\(\);"), "let tparams: Vec<tast::TastIdent> = tparams_of(&all_generics);", 1),
+                         (re.compile(r"for \((\w+), (\w+)\) in param_types\.iter\(\) \{"), r"for __pt in param_types.iter() { let \1 = &__pt.0; let \2 = &__pt.1;", 1),
+                         ("local_env.insert_var(*id, ty.clone());", "local_env.insert_param(local_copy(id), ty.vclone());", "*"),
+                         ("typer.results.record_local_ty(*id, ty.clone());", "typer.record_local_ty(local_copy(id), ty.vclone());", "*"),
+                         (re.compile(r"typer\.check_expr\(genv, &mut local_env, diagnostics, f\.body, &ret_ty\)"), "typer.check_body_m(genv, &mut local_env, diagnostics, f.body, &ret_ty, Ghost(*f), Ghost(for_ty))", 1)],
+           rewrites=[(re.compile(r"let mut (__mo\d+) = Vec::new\(\);"), r"let mut \1: Vec<(LocalId, Ty)> = Vec::new();", "*")],
+           obligation="a method's body is checked against its declared result type, `Self` replaced by the impl's type, with every parameter bound to its declared type likewise; then the constraints are solved",
+           contract="ensures final(typer).solved(),",
+           loop_fn=lambda k, header, kw: (
+               (lambda mt: f"invariant __mi{mt.group(1)} <= f.params.len(), __mo{mt.group(1)}@.len() == __mi{mt.group(1)},\n"
+                           f"  forall|j: int| 0 <= j < __mi{mt.group(1)} ==> (#[trigger] __mo{mt.group(1)}@[j]).0 == f.params@[j].0 && __mo{mt.group(1)}@[j].1 == self_inst(hir_ty(f.params@[j].1), for_ty),\n decreases f.params.len() - __mi{mt.group(1)},")(re.search(r"__mi(\d+)", header))
+               if "__mi" in header else
+               (lambda mt: f"invariant {mt.group(1)} <= param_types.len(), param_types@.len() == f.params@.len(),\n"
+                           f"  forall|j: int| 0 <= j < param_types@.len() ==> (#[trigger] param_types@[j]).0 == f.params@[j].0 && param_types@[j].1 == self_inst(hir_ty(f.params@[j].1), for_ty),\n"
+                           f"  forall|i: int| 0 <= i < {mt.group(1)} && (forall|j: int| i < j < {mt.group(1)} ==> (#[trigger] f.params@[j]).0 != f.params@[i].0) ==> local_env.bound((#[trigger] f.params@[i]).0) == Some(self_inst(hir_ty(f.params@[i].1), for_ty)),\n"
+                           f" decreases param_types.len() - {mt.group(1)},")(re.search(r"while\s+(__fk\d+)", header)))),
     ],
 )
